@@ -1,4 +1,501 @@
-// Level 2 (one interpreter line on a prepared machine) — filled in below.
+// Level 2: one interpreter line (`Interpreter::parse`) on a fully specified machine state.
+//
+// request : x <14 regs> | <seed> | <pokes a:v,..> | <labels n:D:off;n:C:idx> | <fns n:idx> | <stack n,n> | <cur> | <line>
+// answer  : <STATE> | <14 regs> | <memory diff a:v,..> | <call stack>      or  ERR  or  PANIC
+// registers in the order flag ax bx cx dx sp bp si di ip cs ds ss es; memory is a position dependent
+// pattern (seed) so that a read identifies the address used and any stray write shows in the full diff.
+use crate::rng::Rng;
+use emulator_8086_lib::util::preprocessor_util::{Label, LabelType};
+use emulator_8086_lib::{Interpreter, InterpreterContext, State, VM};
 use std::io::Write;
-pub fn answer(_req: &str) -> String { "BADREQ".into() }
-pub fn run<W: Write>(_group: &str, _thorough: bool, _seed: u64, _shard: u64, _nshards: u64, _out: &mut W) {}
+use std::panic::{catch_unwind, AssertUnwindSafe};
+
+const MBU: usize = 1 << 20;
+
+pub fn pattern(seed: u32, a: u32) -> u8 {
+    let x = a.wrapping_mul(0x9E37_79B1).wrapping_add(seed.wrapping_mul(0x85EB_CA6B));
+    ((x >> 13) & 0xFF) as u8
+}
+
+pub struct Bench {
+    vm: VM,
+    base: Vec<u8>,
+    seed: Option<u32>,
+    interp: Interpreter,
+}
+
+impl Bench {
+    pub fn new() -> Bench {
+        Bench { vm: VM::new(), base: vec![0; MBU], seed: None, interp: Interpreter::new() }
+    }
+    fn set_seed(&mut self, seed: u32) {
+        if self.seed == Some(seed) {
+            return;
+        }
+        for a in 0..MBU {
+            let b = pattern(seed, a as u32);
+            self.base[a] = b;
+            self.vm.mem[a] = b;
+        }
+        self.seed = Some(seed);
+    }
+    fn diff_and_restore(&mut self) -> Vec<(usize, u8)> {
+        let mut d = Vec::new();
+        const CH: usize = 4096;
+        for c in 0..(MBU / CH) {
+            let r = c * CH..(c + 1) * CH;
+            if self.vm.mem[r.clone()] != self.base[r.clone()] {
+                for a in r {
+                    if self.vm.mem[a] != self.base[a] {
+                        d.push((a, self.vm.mem[a]));
+                        self.vm.mem[a] = self.base[a];
+                    }
+                }
+            }
+        }
+        d
+    }
+}
+
+fn regs_of(vm: &VM) -> String {
+    let a = &vm.arch;
+    format!(
+        "{} {} {} {} {} {} {} {} {} {} {} {} {} {}",
+        a.flag, a.ax, a.bx, a.cx, a.dx, a.sp, a.bp, a.si, a.di, a.ip, a.cs, a.ds, a.ss, a.es
+    )
+}
+
+fn state_str(s: &State) -> String {
+    match s {
+        State::HALT => "HALT".into(),
+        State::PRINT => "PRINT".into(),
+        State::JMP(i) => format!("JMP {}", i),
+        State::NEXT => "NEXT".into(),
+        State::INT(n) => format!("INT {}", n),
+        State::REPEAT => "REPEAT".into(),
+    }
+}
+
+thread_local! {
+    static BENCH: std::cell::RefCell<Option<Bench>> = std::cell::RefCell::new(None);
+}
+
+pub fn answer(req: &str) -> String {
+    BENCH.with(|b| {
+        let mut g = b.borrow_mut();
+        if g.is_none() {
+            *g = Some(Bench::new());
+        }
+        answer_with(g.as_mut().unwrap(), req)
+    })
+}
+
+pub fn answer_with(b: &mut Bench, req: &str) -> String {
+    let parts: Vec<&str> = req.splitn(8, " | ").collect();
+    if parts.len() != 8 {
+        return "BADREQ".into();
+    }
+    let regs: Vec<u16> = parts[0].split_whitespace().skip(1).filter_map(|s| s.parse().ok()).collect();
+    if regs.len() != 14 {
+        return "BADREQ".into();
+    }
+    let seed: u32 = parts[1].trim().parse().unwrap_or(0);
+    b.set_seed(seed);
+    {
+        let a = &mut b.vm.arch;
+        a.flag = regs[0];
+        a.ax = regs[1];
+        a.bx = regs[2];
+        a.cx = regs[3];
+        a.dx = regs[4];
+        a.sp = regs[5];
+        a.bp = regs[6];
+        a.si = regs[7];
+        a.di = regs[8];
+        a.ip = regs[9];
+        a.cs = regs[10];
+        a.ds = regs[11];
+        a.ss = regs[12];
+        a.es = regs[13];
+    }
+    let mut poked: Vec<(usize, u8)> = Vec::new();
+    if parts[2].trim() != "-" {
+        for p in parts[2].trim().split(',') {
+            let mut it = p.split(':');
+            let a: usize = it.next().and_then(|s| s.parse().ok()).unwrap_or(0) % MBU;
+            let v: u8 = it.next().and_then(|s| s.parse().ok()).unwrap_or(0);
+            poked.push((a, b.base[a]));
+            b.base[a] = v;
+            b.vm.mem[a] = v;
+        }
+    }
+    let mut ctx = InterpreterContext::default();
+    if parts[3].trim() != "-" {
+        for l in parts[3].trim().split(';') {
+            let f: Vec<&str> = l.split(':').collect();
+            if f.len() == 3 {
+                let t = if f[1] == "D" { LabelType::DATA } else { LabelType::CODE };
+                ctx.label_map.insert(f[0].to_string(), Label::new(t, 0, f[2].parse().unwrap_or(0)));
+            }
+        }
+    }
+    if parts[4].trim() != "-" {
+        for l in parts[4].trim().split(';') {
+            let f: Vec<&str> = l.split(':').collect();
+            if f.len() == 2 {
+                ctx.fn_map.insert(f[0].to_string(), f[1].parse().unwrap_or(0));
+            }
+        }
+    }
+    if parts[5].trim() != "-" {
+        for n in parts[5].trim().split(',') {
+            ctx.call_stack.push(n.parse().unwrap_or(0));
+        }
+    }
+    let cur: usize = parts[6].trim().parse().unwrap_or(0);
+    let line = parts[7];
+    let r = {
+        let vm = &mut b.vm;
+        let interp = &b.interp;
+        catch_unwind(AssertUnwindSafe(|| interp.parse(cur, vm, &mut ctx, line).map_err(|_| ())))
+    };
+    let out = match r {
+        Err(_) => {
+            b.diff_and_restore();
+            "PANIC".to_string()
+        }
+        Ok(Err(())) => {
+            b.diff_and_restore();
+            "ERR".to_string()
+        }
+        Ok(Ok(st)) => {
+            let regs = regs_of(&b.vm);
+            let d = b.diff_and_restore();
+            let ds = if d.is_empty() {
+                "-".to_string()
+            } else {
+                d.iter().map(|(a, v)| format!("{}:{}", a, v)).collect::<Vec<_>>().join(",")
+            };
+            let cs = if ctx.call_stack.is_empty() {
+                "-".to_string()
+            } else {
+                ctx.call_stack.iter().map(|n| n.to_string()).collect::<Vec<_>>().join(",")
+            };
+            format!("{} | {} | {} | {}", state_str(&st), regs, ds, cs)
+        }
+    };
+    // undo the pokes
+    for (a, old) in poked.into_iter().rev() {
+        b.base[a] = old;
+        b.vm.mem[a] = old;
+    }
+    out
+}
+
+// ------------------------------------------------------------------------------------------------
+// generators
+
+const ADV: [u16; 12] = [0, 1, 2, 0x7FFF, 0x8000, 0xFFFE, 0xFFFF, 0x00FF, 0x0100, 0xFFF0, 0x000F, 0x1234];
+
+pub struct Gen {
+    pub rng: Rng,
+    pub memseed: u64,
+}
+
+pub const BREGS: [&str; 8] = ["al", "ah", "bl", "bh", "cl", "ch", "dl", "dh"];
+pub const WREGS: [&str; 8] = ["ax", "bx", "cx", "dx", "sp", "bp", "si", "di"];
+pub const SREGS: [&str; 4] = ["es", "ds", "ss", "cs"];
+
+pub const LABELS: &str = "vb:D:5;vw:D:300;big:D:65535;zero:D:0;start:C:0;lab:C:7;far:C:100";
+pub const FNS: &str = "fun:3;other:44";
+
+impl Gen {
+    pub fn reg16(&mut self) -> u16 {
+        if self.rng.chance(2, 3) {
+            *self.rng.pick(&ADV)
+        } else {
+            self.rng.next() as u16
+        }
+    }
+    /// a machine state: 14 registers; segments often chosen so that seg*16+off straddles 2^20
+    pub fn regs(&mut self) -> [u16; 14] {
+        let mut r = [0u16; 14];
+        for x in r.iter_mut() {
+            *x = self.reg16();
+        }
+        r[0] = match self.rng.below(4) {
+            0 => 0xF000,
+            1 => 0xFFFF,
+            2 => 0x0000,
+            _ => self.rng.next() as u16,
+        };
+        for i in [10usize, 11, 12, 13] {
+            r[i] = match self.rng.below(5) {
+                0 => 0xFFFF,
+                1 => 0xF000 + (self.rng.below(0x1000) as u16),
+                2 => 0,
+                3 => 0xFFF0 + (self.rng.below(16) as u16),
+                _ => self.rng.next() as u16,
+            };
+        }
+        r
+    }
+    pub fn disp(&mut self) -> String {
+        match self.rng.below(8) {
+            0 => "0".into(),
+            1 => "1".into(),
+            2 => "-1".into(),
+            3 => "-32768".into(),
+            4 => "65535".into(),
+            5 => "32767".into(),
+            6 => format!("-{}", self.rng.below(32768) + 1),
+            _ => format!("{}", self.rng.below(65536)),
+        }
+    }
+    pub fn mem(&mut self) -> String {
+        let seg = if self.rng.chance(1, 2) { format!("{}:", self.rng.pick(&SREGS)) } else { String::new() };
+        let base = *self.rng.pick(&["bx", "bp"]);
+        let idx = *self.rng.pick(&["si", "di"]);
+        match self.rng.below(6) {
+            0 => format!("{}[{}]", seg, self.rng.below(65536)),
+            1 => format!("{}[{}]", seg, base),
+            2 => format!("{}[{}]", seg, idx),
+            3 => format!("{}[{},{}]", seg, base, self.disp()),
+            4 => format!("{}[{},{}]", seg, idx, self.disp()),
+            _ => format!("{}[{},{},{}]", seg, base, idx, self.disp()),
+        }
+    }
+    pub fn dst8(&mut self) -> String {
+        match self.rng.below(4) {
+            0 | 1 => self.rng.pick(&BREGS).to_string(),
+            2 => format!("byte {}", self.mem()),
+            _ => format!("byte {}", self.rng.pick(&["vb", "vw", "big", "zero"])),
+        }
+    }
+    pub fn dst16(&mut self) -> String {
+        match self.rng.below(4) {
+            0 | 1 => self.rng.pick(&WREGS).to_string(),
+            2 => format!("word {}", self.mem()),
+            _ => format!("word {}", self.rng.pick(&["vb", "vw", "big", "zero"])),
+        }
+    }
+    pub fn imm8s(&mut self) -> String {
+        match self.rng.below(6) {
+            0 => "0".into(),
+            1 => "255".into(),
+            2 => "-128".into(),
+            3 => "-1".into(),
+            4 => format!("-{}", self.rng.below(128) + 1),
+            _ => format!("{}", self.rng.below(256)),
+        }
+    }
+    pub fn imm16s(&mut self) -> String {
+        match self.rng.below(6) {
+            0 => "0".into(),
+            1 => "65535".into(),
+            2 => "-32768".into(),
+            3 => "-1".into(),
+            4 => format!("-{}", self.rng.below(32768) + 1),
+            _ => format!("{}", self.rng.below(65536)),
+        }
+    }
+    /// (dst, src) for the binary families; `signed` selects the immediate syntax
+    pub fn pair(&mut self, signed: bool) -> String {
+        let word = self.rng.chance(1, 2);
+        let (d, mut s);
+        if word {
+            d = self.dst16();
+            s = match self.rng.below(4) {
+                0 => self.rng.pick(&WREGS).to_string(),
+                1 => {
+                    if signed {
+                        self.imm16s()
+                    } else {
+                        format!("{}", self.rng.below(65536))
+                    }
+                }
+                _ => self.dst16(),
+            };
+            if d.starts_with("word") && s.starts_with("word") {
+                s = self.rng.pick(&WREGS).to_string();
+            }
+        } else {
+            d = self.dst8();
+            s = match self.rng.below(4) {
+                0 => self.rng.pick(&BREGS).to_string(),
+                1 => {
+                    if signed {
+                        self.imm8s()
+                    } else {
+                        format!("{}", self.rng.below(256))
+                    }
+                }
+                _ => self.dst8(),
+            };
+            if d.starts_with("byte") && s.starts_with("byte") {
+                s = self.rng.pick(&BREGS).to_string();
+            }
+        }
+        let sep = *self.rng.pick(&[",", " , ", ", "]);
+        format!("{}{}{}", d, sep, s)
+    }
+    pub fn unary_dst(&mut self) -> String {
+        if self.rng.chance(1, 2) {
+            self.dst16()
+        } else {
+            self.dst8()
+        }
+    }
+
+    pub fn line(&mut self, class: &str) -> String {
+        match class {
+            "arith" => match self.rng.below(3) {
+                0 | 1 => format!("{} {}", self.rng.pick(&["add", "adc", "sub", "sbb", "cmp"]), self.pair(true)),
+                _ => format!("{} {}", self.rng.pick(&["inc", "dec", "neg"]), self.unary_dst()),
+            },
+            "logic" => match self.rng.below(4) {
+                0 => format!("not {}", self.unary_dst()),
+                _ => format!("{} {}", self.rng.pick(&["and", "or", "xor", "test"]), self.pair(false)),
+            },
+            "shift" => {
+                let f = *self.rng.pick(&["sal", "shl", "sar", "shr", "rol", "ror", "rcl", "rcr"]);
+                let cnt = match self.rng.below(4) {
+                    0 => "cl".to_string(),
+                    1 => format!("{}", self.rng.below(256)),
+                    _ => format!("{}", self.rng.pick(&[0u32, 1, 2, 7, 8, 9, 10, 15, 16, 17, 18, 31, 32, 33, 255])),
+                };
+                format!("{} {},{}", f, self.unary_dst(), cnt)
+            }
+            "muldiv" => match self.rng.below(5) {
+                0 => self.rng.pick(&["aaa", "aad", "aam", "aas", "daa", "das", "cbw", "cwd"]).to_string(),
+                _ => format!("{} {}", self.rng.pick(&["mul", "imul", "div", "idiv"]), self.unary_dst()),
+            },
+            "mov" => match self.rng.below(8) {
+                0 => format!("mov {},{}", self.rng.pick(&SREGS), self.rng.pick(&WREGS)),
+                1 => format!("mov {},{}", self.rng.pick(&WREGS), self.rng.pick(&SREGS)),
+                2 => format!("mov word {},{}", self.mem(), self.rng.pick(&SREGS)),
+                3 => format!("mov {}, word {}", self.rng.pick(&SREGS), self.mem()),
+                4 => format!("mov {}, word vw", self.rng.pick(&SREGS)),
+                5 => format!("mov word vw,{}", self.rng.pick(&SREGS)),
+                _ => format!("mov {}", self.pair(true)),
+            },
+            "xfer" => match self.rng.below(10) {
+                0 => "lahf".into(),
+                1 => "sahf".into(),
+                2 => "xlat".into(),
+                3 => format!("xchg {},{}", self.rng.pick(&BREGS), self.rng.pick(&BREGS)),
+                4 => format!("xchg {} ,{}", self.rng.pick(&WREGS), self.rng.pick(&WREGS)),
+                5 => format!("xchg byte {} ,{}", self.mem(), self.rng.pick(&BREGS)),
+                6 => format!("xchg word {} ,{}", self.mem(), self.rng.pick(&WREGS)),
+                7 => format!("xchg word vw ,{}", self.rng.pick(&WREGS)),
+                8 => format!("lea {} , word {}", self.rng.pick(&WREGS), self.mem()),
+                _ => format!("lea {} , word {}", self.rng.pick(&WREGS), self.rng.pick(&["vb", "vw", "big", "zero"])),
+            },
+            "stack" => match self.rng.below(10) {
+                0 => "pushf".into(),
+                1 => "popf".into(),
+                2 => format!("push {}", self.rng.pick(&WREGS)),
+                3 => format!("pop {}", self.rng.pick(&WREGS)),
+                4 => format!("push {}", self.rng.pick(&SREGS)),
+                5 => format!("pop {}", self.rng.pick(&["es", "ds", "ss"])),
+                6 => format!("push word {}", self.mem()),
+                7 => format!("pop word {}", self.mem()),
+                8 => format!("push word {}", self.rng.pick(&["vb", "vw", "big"])),
+                _ => format!("pop word {}", self.rng.pick(&["vb", "vw", "big"])),
+            },
+            "jump" => {
+                let j = *self.rng.pick(&[
+                    "jmp", "ja", "jae", "jb", "jbe", "jc", "je", "jg", "jge", "jl", "jle", "jnc", "jne", "jno", "jnp",
+                    "jns", "jo", "jp", "js", "jcxz", "loop", "loope", "loopne",
+                ]);
+                match self.rng.below(12) {
+                    0 => "ret".into(),
+                    1 => format!("call {}", self.rng.pick(&["fun", "other"])),
+                    2 => format!("int {}", self.rng.pick(&[3u32, 16, 33])),
+                    _ => format!("{} {}", j, self.rng.pick(&["lab", "far", "start"])),
+                }
+            }
+            "string" => {
+                let pre = *self.rng.pick(&["", "", "rep ", "repz ", "repnz "]);
+                format!(
+                    "{}{} {}",
+                    pre,
+                    self.rng.pick(&["movs", "lods", "stos", "cmps", "scas"]),
+                    self.rng.pick(&["byte", "word"])
+                )
+            }
+            "ctl" => self
+                .rng
+                .pick(&["stc", "clc", "cmc", "std", "cld", "sti", "cli", "hlt", "nop", "print reg", "print flags", "print mem 0 -> 5", "print mem 5 : 3", "print mem : 9"])
+                .to_string(),
+            "malformed" => {
+                // near misses: lines the assembler never emits; must be ERR in both, never PANIC
+                let c = *self.rng.pick(&["arith", "logic", "shift", "muldiv", "mov", "xfer", "stack", "jump", "string", "ctl"]);
+                let mut l = self.line(c);
+                match self.rng.below(9) {
+                    0 => l = l.replace(',', " "),
+                    1 => l.push_str(" ax"),
+                    2 => l = l.replacen("word", "byte", 1),
+                    3 => l = l.replacen("byte", "word", 1),
+                    4 => l = l.replace("[", "[["),
+                    5 => l = format!("{} 70000", l),
+                    6 => l = l.replace("lab", "nolabel").replace("vw", "nolabel").replace("fun", "nofun"),
+                    7 => l = l.replace("vw", "lab").replace("lab", "vb"),
+                    _ => {
+                        let toks: Vec<&str> = l.split_whitespace().collect();
+                        if toks.len() > 1 {
+                            let k = self.rng.below(toks.len() as u64) as usize;
+                            l = toks.iter().enumerate().filter(|(i, _)| *i != k).map(|(_, t)| *t).collect::<Vec<_>>().join(" ");
+                        }
+                    }
+                }
+                l
+            }
+            _ => "nop".into(),
+        }
+    }
+
+    pub fn request(&mut self, class: &str) -> String {
+        let line = self.line(class);
+        self.request_for(&line)
+    }
+
+    pub fn request_for(&mut self, line: &str) -> String {
+        let r = self.regs();
+        let regs = r.iter().map(|x| x.to_string()).collect::<Vec<_>>().join(" ");
+        let seed = self.memseed;
+        let stack = match self.rng.below(3) {
+            0 => "-".to_string(),
+            1 => "9".to_string(),
+            _ => "4,17,2".to_string(),
+        };
+        let pokes = if self.rng.chance(1, 4) {
+            // make the stack top / DS:SI region interesting
+            let a = ((r[12] as u32) * 16 + r[5] as u32) & 0xFFFFF;
+            format!("{}:{},{}:{}", a, self.rng.below(256), (a + 1) & 0xFFFFF, self.rng.below(256))
+        } else {
+            "-".to_string()
+        };
+        format!("x {} | {} | {} | {} | {} | {} | {} | {}", regs, seed, pokes, LABELS, FNS, stack, self.rng.below(50), line)
+    }
+}
+
+pub fn run<W: Write>(group: &str, thorough: bool, seed: u64, shard: u64, nshards: u64, out: &mut W) {
+    let mut g = Gen { rng: Rng::new(seed ^ 0x2222 ^ crate::rng::fnv1a(group)), memseed: seed % 7 + 1 };
+    let mut b = Bench::new();
+    let classes: Vec<&str> = if group == "all" {
+        vec!["arith", "logic", "shift", "muldiv", "mov", "xfer", "stack", "jump", "string", "ctl"]
+    } else {
+        group.split('+').collect()
+    };
+    let n: u64 = if thorough { 400_000 } else { 40_000 };
+    for i in 0..n {
+        let class = classes[(i % classes.len() as u64) as usize];
+        let req = g.request(class);
+        if crate::rng::fnv1a(&req) % nshards != shard {
+            continue;
+        }
+        let a = answer_with(&mut b, &req);
+        writeln!(out, "{} => {}", req, a).unwrap();
+    }
+}
